@@ -57,9 +57,41 @@ def fmt_dt(d):
     return day + ' %02d:%02d:%02d' % (d.hour, d.minute, d.second)
 
 
-def fmt_dt_any(d):
-    """One of the documented spellings for the same instant."""
-    return fmt_dt(d)
+DATE_SPELLINGS = ['slash', 'nopad', 'T', 'slash-nopad']
+
+
+def fmt_dt_any(text, spelling):
+    """Another of the spellings the loader reads for the same instant."""
+    d = R.parse_date_bound(text)
+    sep = '/' if 'slash' in spelling else '-'
+    f = '%d' if 'nopad' in spelling else '%02d'
+    day = ('%04d' + sep + f + sep + f) % (d.year, d.month, d.day)
+    if ' ' not in text and 'T' not in text:
+        return day
+    t = ('T' if spelling == 'T' else ' ') + (f + ':%02d:%02d') % (
+        d.hour, d.minute, d.second)
+    if d.microsecond:
+        t += '.%06d' % d.microsecond
+    return day + t
+
+
+@st.composite
+def respell_dates(draw, cons):
+    """Date bounds of date fields in another accepted spelling."""
+    for fc in cons['fields'].values():
+        if fc.get('type') != 'date':
+            continue
+        for k in ('min', 'max'):
+            v = fc.get(k)
+            if v is None or draw(st.integers(0, 2)) != 0:
+                continue
+            sp = draw(st.sampled_from(DATE_SPELLINGS))
+            if isinstance(v, dict):
+                if isinstance(v.get('value'), str):
+                    v['value'] = fmt_dt_any(v['value'], sp)
+            elif isinstance(v, str):
+                fc[k] = fmt_dt_any(v, sp)
+    return cons
 
 
 def numeric_bounds(stat, atype, eps_candidates):
